@@ -4,6 +4,7 @@ use serde_json::Value;
 pub type AreaFn = fn(&Value) -> Vec<Value>;
 
 mod beans;
+mod grow;
 mod local;
 mod ows;
 mod time;
@@ -14,6 +15,7 @@ pub fn lookup(name: &str) -> Option<AreaFn> {
         "ows" => Some(ows::run),
         "local" => Some(local::run),
         "beans" => Some(beans::run),
+        "grow" => Some(grow::run),
         _ => None,
     }
 }
